@@ -127,6 +127,14 @@ func init() {
 				for _, a := range c.P.Writes(fv) {
 					fn := c.P.FuncName(a.Fn)
 					cl, ok := class[fn]
+					if !ok {
+						// a private helper of a classified function inherits its class
+						for cn, cc := range class {
+							if cf := c.P.Fn(cn); cf != nil && c.P.OwnedBy(a.Fn, map[*ssa.Function]bool{cf: true}) {
+								cl, ok = cc, true
+							}
+						}
+					}
 					c.Check(ok, ks.key("container-store("+f+")@"+fn), c.Pos(a.Instr), "classified: "+cl, "unclassified store to reassembly container "+f+" in "+fn+": review its byte accounting")
 				}
 			}
